@@ -7,6 +7,9 @@
 (*   reg  r := value kind e        (whole register, RB bytes)               *)
 (*   flag f := value kind e        (a register of the FLAGS type)           *)
 (*   st   [p+off] := n bytes of value kind e   (memory through one pointer) *)
+(*   pp   p := p + k               (the pointer's base register moves: the  *)
+(*                                  later stores of the map go to p+k+off;   *)
+(*                                  map keys stay relative to the INPUT p)   *)
 (* A value is a sequence of byte cells; a cell is a SET of byte tags (the   *)
 (* candidates: a vec) or UCell (top / vecw). Tags <<"k", e, k>> are byte k of *)
 (* value kind e, <<"in:r", k, 0>> the input value of register r, <<"m",o,0>> *)
@@ -51,6 +54,7 @@ CONSTANTS Regs, Flags,   \* register names (strings)
           RB,            \* bytes per register
           Offsets, Sizes,\* memory keys p+off and store sizes in bytes
           Kinds,         \* value kinds
+          PPs,           \* amounts by which a branch may move the pointer register ({} = never)
           MaxPre, MaxB,  \* operations in the prefix / in each branch
           Widen,         \* set of widening settings to explore
           Thr,           \* set of BOOLEAN: may the complexity threshold fire
@@ -62,7 +66,7 @@ VARIABLES pre, b1, b2, w, t, cd
 vars == <<pre, b1, b2, w, t, cd>>
 
 MaxS(S) == CHOOSE x \in S : \A y \in S : y <= x
-MaxOff == MaxS(Offsets) + MaxS(Sizes) - 1
+MaxOff == MaxS(Offsets) + MaxS(Sizes) - 1 + (IF PPs = {} THEN 0 ELSE (MaxPre + MaxB) * MaxS(PPs))
 Cells == [k : {"r"}, r : Regs \cup Flags, i : 0..(RB - 1)] \cup [k : {"m"}, o : 0..MaxOff]
 
 (* tags are <<string, int, int>> so that TLC can compare any two of them *)
@@ -73,7 +77,7 @@ UCell       == {<<"U", 0, 0>>}                       \* the unknown cell (top / 
 TopVal(n)   == [k \in 1..n |-> UCell]
 
 (* ---- a map: [items, zone]; item = [reg, val] | [off, val] ---------------- *)
-EmptyMap == [items |-> <<>>, zone |-> <<>>]
+EmptyMap == [items |-> <<>>, zone |-> <<>>, sh |-> 0]        \* sh: what the map has added to p so far
 RIdx(m, r) == LET S == {i \in 1..Len(m.items) : "reg" \in DOMAIN m.items[i] /\ m.items[i].reg = r} IN IF S = {} THEN 0 ELSE MaxS(S)
 MIdx(m, o) == LET S == {i \in 1..Len(m.items) : "off" \in DOMAIN m.items[i] /\ m.items[i].off = o} IN IF S = {} THEN 0 ELSE MaxS(S)
 RemoveAt(s, i) == SubSeq(s, 1, i - 1) \o SubSeq(s, i + 1, Len(s))
@@ -87,7 +91,7 @@ SetMem(m, o, val) ==            \* mapper.__setitem__, pointer branch (little en
       r == IF i > 0 /\ Len(m.items[i].val) > Len(val)
            THEN val \o SubSeq(m.items[i].val, Len(val) + 1, Len(m.items[i].val)) ELSE val
       it == IF i > 0 THEN RemoveAt(m.items, i) ELSE m.items
-  IN [items |-> Append(it, [off |-> o, val |-> r]), zone |-> ZWrite(m.zone, o, r)]
+  IN [m EXCEPT !.items = Append(it, [off |-> o, val |-> r]), !.zone = ZWrite(m.zone, o, r)]
 GetReg(m, r) == LET i == RIdx(m, r) IN IF i > 0 THEN m.items[i].val ELSE InReg(r)         \* m[r]
 GetMem(m, o, n) == [k \in 1..n |-> IF (o + k - 1) \in DOMAIN m.zone /\ ~("TopReadAsBottom" \in Q /\ m.zone[o + k - 1] = UCell)
                                     THEN m.zone[o + k - 1] ELSE InMem(o + k - 1)]  \* m[mem(p+o, 8n)]
@@ -97,7 +101,8 @@ HasReg(m, r) == RIdx(m, r) > 0
 Step(m, op) ==
   CASE op.o = "reg"  -> SetReg(m, op.r, ValOf(op.e, RB))
     [] op.o = "flag" -> SetReg(m, op.r, ValOf(op.e, RB))
-    [] op.o = "st"   -> SetMem(m, op.off, ValOf(op.e, op.n))
+    [] op.o = "st"   -> SetMem(m, op.off + m.sh, ValOf(op.e, op.n))    \* loc = k.addr(self): p read in the map
+    [] op.o = "pp"   -> [m EXCEPT !.sh = @ + op.k]
 RECURSIVE Run(_, _)
 Run(m, ops) == IF ops = <<>> THEN m ELSE Run(Step(m, Head(ops)), Tail(ops))
 
@@ -148,7 +153,7 @@ KeysOK == LET K(m) == {IF "reg" \in DOMAIN m.items[i] THEN <<"r", m.items[i].reg
 
 (* ---- behaviours --------------------------------------------------------------- *)
 Ops == [o : {"reg"}, r : Regs, e : Kinds] \cup [o : {"flag"}, r : Flags, e : Kinds]
-       \cup [o : {"st"}, off : Offsets, n : Sizes, e : Kinds]
+       \cup [o : {"st"}, off : Offsets, n : Sizes, e : Kinds] \cup [o : {"pp"}, k : PPs]
 
 Init == pre = <<>> /\ b1 = <<>> /\ b2 = <<>> /\ w \in Widen /\ t \in Thr /\ cd \in Conds \X Conds
 Next == /\ UNCHANGED <<w, t, cd>>
